@@ -171,8 +171,11 @@ structure Call (K : Type) where
   kernelErr : Option Err := none
   /-- shape of what NumPy's kernel returns for the stripped call (read by the wrap-up only) -/
   kernelShape : List Nat := []
-  /-- keyword operands that `__array_ufunc__` forwards to NumPy without looking at them
-      (`initial=`, `where=`): they cannot influence the outcome -/
+  /-- `initial=` of a reduction: expressed in the operand's units when it carries units and the
+      ufunc's rule is a checked one (array.py, one-input branch) -/
+  initial : Option (Operand K) := none
+  /-- other keyword operands that `__array_ufunc__` forwards to NumPy without looking at them
+      (`where=`, …): they cannot influence the outcome -/
   extra : List (String × Operand K) := []
 
 /-- effects on the `out=` operands (inputs are never written unless they are `out`) -/
@@ -202,6 +205,8 @@ structure Outcome (K : Type) where
   factorFirst : Option K := none
   /-- itemsize of the float (complex for a complex operand) dtype the factor and the second operand were cast to -/
   factorItemsize : Option Nat := none
+  /-- factor `initial=` was multiplied by (`initial.to_value(u)`) -/
+  factorInitial : Option K := none
   /-- multiplier applied to the result afterwards (`mul`, and the dimensionless-ratio rescale) -/
   mul : K
   /-- `==`/`!=` early return: `some false` = all-False, `some true` = all-True -/
@@ -353,13 +358,16 @@ inductive Check (K : Type)
   | refuse
 deriving Repr
 
-/-- the zero exception: `u0 = u1` when the first operand is all zeros, else `u1 = u0` when the
-    second is — entered whenever at least one operand is not a `unyt_array` -/
+/-- the coerced operand has no `units` attribute: a number, a bare array, a sequence of numbers -/
+def Operand.hasNoUnits {K : Type} : Operand K → Bool
+  | .bare _ => true
+  | _ => false
+
+/-- the zero exception: an operand *without units* that is all zeros adopts the unit of its
+    partner (`u0 = u1` for the first operand, else `u1 = u0` for the second) -/
 def adoptZero (i0 i1 : Operand K) (u0 u1 : UnitR K) : UnitR K × UnitR K :=
-  if !(i0.isUnyt) || !(i1.isUnyt) then
-    if i0.data.allZero then (u1, u1)
-    else if i1.data.allZero then (u0, u0)
-    else (u0, u1)
+  if i0.hasNoUnits && i0.data.allZero then (u1, u1)
+  else if i1.hasNoUnits && i1.data.allZero then (u0, u0)
   else (u0, u1)
 
 /-- array.py:1903-1954 -/
@@ -381,7 +389,8 @@ def commensurate (C : Ctx K) (rule : Rule) (f : String) (i0 i1 : Operand K) (u0 
 
 /-! ## §6 `out=` handling -/
 
-/-- array.py:1800-1823: an integer `out` is turned into a float array before anything is checked -/
+/-- `_float_out_view`: an integer `out` is turned into a float array immediately before the kernel
+    writes into it — after every unit check -/
 def prepOut (T : Tables) (f : String) : OutSpec → List (Effect K)
   | .one o => if (T.multiOut.any (·.1 == f)) then [] else if o.intDtype then [.retypeOut] else []
   | _ => []
@@ -459,14 +468,28 @@ def unaryPath (C : Ctx K) (c : Call K) (inp : Operand K) (eff0 : List (Effect K)
           | .error e => .error e
           | .ok fo => .ok (some fo.1)
       else .ok none
+    -- `initial=` carrying units is expressed in the operand's units first (checked rules only)
+    let ini : Except Err (Option K) :=
+      match c.initial with
+      | some (.unyt _ ui _) =>
+        if (match C.T.ruleOf c.ufunc with | some r => r.checked | none => false) then
+          match getConversionFactor C.pre C.lut ui.v u.v with
+          | .error e => .error e
+          | .ok fo => .ok (some fo.1)
+        else .ok none
+      | _ => .ok none
+    match ini with
+    | .error e => ⟨eff0, .error e⟩
+    | .ok finit =>
     match trig with
     | .error e => ⟨eff0, .error e⟩
     | .ok factor =>
-      -- the kernel runs before the unit rule is consulted
+      -- the kernel runs before the unit rule is consulted; an integer `out` is made float for it
+      let effR := eff0 ++ prepOut C.T c.ufunc c.out
       match c.kernelErr with
-      | some e => ⟨eff0, .error e⟩
+      | some e => ⟨effR, .error e⟩
       | none =>
-        let eff1 := eff0 ++ kernelWrites c.out
+        let eff1 := effR ++ kernelWrites c.out
         let ru : Except Err (K × Option (UnitV K)) :=
           if (c.ufunc == C.T.multiplyName || c.ufunc == C.T.divideName) && c.method == .reduce then
             (powerMapUnit C.T c.ufunc u.v (match c.axisLen with | some n => n | none => d.size)).map
@@ -477,7 +500,9 @@ def unaryPath (C : Ctx K) (c : Call K) (inp : Operand K) (eff0 : List (Effect K)
             | some r => applyRule1 C r u
         match ru with
         | .error e => ⟨eff1, .error e⟩
-        | .ok (mul, unit) => wrapUp C.T eff1 c false mul unit factor none
+        | .ok (mul, unit) =>
+          let r := wrapUp C.T eff1 c false mul unit factor none
+          ⟨r.effects, r.result.map fun o => { o with factorInitial := finit }⟩
 
 /-- which operand the `u0 != u1` branch rescales -/
 inductive Rescale (K : Type)
@@ -550,10 +575,11 @@ def stdBinary (C : Ctx K) (c : Call K) (rule : Rule) (i0 i1 : Operand K)
         match applyRule2 C rule u0 u1 with
         | .error e => ⟨eff0, .error e⟩
         | .ok (mul, unit) =>
+          let effR := eff0 ++ prepOut C.T c.ufunc c.out
           match c.kernelErr with
-          | some e => ⟨eff0, .error e⟩
+          | some e => ⟨effR, .error e⟩
           | none =>
-            let eff1 := eff0 ++ kernelWrites c.out
+            let eff1 := effR ++ kernelWrites c.out
             match mulDivPost rule u0 u1 mul unit with
             | .error e => ⟨eff1, .error e⟩
             | .ok (mul, unit) =>
@@ -591,9 +617,10 @@ def powerPath (C : Ctx K) (c : Call K) (i0 i1 : Operand K) (u0r c1 : Option (Uni
       match ru with
       | .error e => ⟨eff0, .error e⟩
       | .ok (mul, unit) =>
+        let effR := eff0 ++ prepOut C.T c.ufunc c.out
         match c.kernelErr with
-        | some e => ⟨eff0, .error e⟩
-        | none => wrapUp C.T (eff0 ++ kernelWrites c.out) c (!(i0.isUnyt) && !(i1.isUnyt)) mul unit none none
+        | some e => ⟨effR, .error e⟩
+        | none => wrapUp C.T (effR ++ kernelWrites c.out) c (!(i0.isUnyt) && !(i1.isUnyt)) mul unit none none
 
 /-- array.py:1841-1992 -/
 def binaryPath (C : Ctx K) (c : Call K) (i0 i1 : Operand K) (eff0 : List (Effect K)) : Run K :=
@@ -626,7 +653,7 @@ def clipPath (C : Ctx K) (c : Call K) (eff0 : List (Effect K)) : Run K :=
 
 /-- `unyt_array.__array_ufunc__` -/
 def dispatch (C : Ctx K) (c : Call K) : Run K :=
-  let eff0 : List (Effect K) := prepOut C.T c.ufunc c.out
+  let eff0 : List (Effect K) := []
   match c.inputs with
   | [inp] => unaryPath C c inp eff0
   | [i0, i1] => binaryPath C c i0 i1 eff0
